@@ -496,6 +496,9 @@ func Bin(op Op, a, b *Term) *Term {
 		if a == b {
 			return a
 		}
+		if r := simplifyOr(a, b); r != nil {
+			return r
+		}
 	case OpBXor:
 		if a.Op == OpConst {
 			a, b = b, a
@@ -654,13 +657,26 @@ func Extract(a *Term, hi, lo int) *Term {
 	case OpExtract:
 		ilo := int(a.V & 0xff)
 		return Extract(a.A[0], hi+ilo, lo+ilo)
-	case OpBAnd, OpBOr, OpBXor:
-		if a.A[1].Op == OpConst || lo == 0 {
-			return Bin(a.Op, Extract(a.A[0], hi, lo), Extract(a.A[1], hi, lo))
+	case OpLShr:
+		if a.A[1].Op == OpConst {
+			k := int(a.A[1].V)
+			if k < a.W && hi+k < a.W {
+				return Extract(a.A[0], hi+k, lo+k)
+			}
 		}
-	case OpAdd, OpSub, OpMul:
-		if lo == 0 {
-			return Bin(a.Op, Extract(a.A[0], hi, 0), Extract(a.A[1], hi, 0))
+	case OpShl:
+		if a.A[1].Op == OpConst {
+			k := int(a.A[1].V)
+			if k < a.W && lo >= k {
+				return Extract(a.A[0], hi-k, lo-k)
+			}
+			if k < a.W && hi < k {
+				return BV(w, 0)
+			}
+		}
+	case OpBAnd, OpBOr, OpBXor:
+		if a.A[1].Op == OpConst {
+			return Bin(a.Op, Extract(a.A[0], hi, lo), Extract(a.A[1], hi, lo))
 		}
 	case OpIte:
 		if a.A[1].Op == OpConst || a.A[2].Op == OpConst {
@@ -715,6 +731,11 @@ func Concat(hi, lo *Term) *Term {
 	}
 	if hi.Op == OpConst && hi.V == 0 {
 		return ZExt(lo, w)
+	}
+	if hx, hh, hl := extractParts(hi); true {
+		if lx, lh, ll := extractParts(lo); hx == lx && hl == lh+1 && (hi.Op == OpExtract || lo.Op == OpExtract) {
+			return Extract(hx, hh, ll)
+		}
 	}
 	return TT.mk(OpConcat, w, 0, "", hi, lo)
 }
